@@ -797,6 +797,162 @@ theorem geohash_decode_encode46 (ulon ulat len : Nat) (hlen : len ≤ 18) (h1 : 
 example : (match Geohash.decodeInt (toBytes (Geohash.encodeInt (2^45 + 12345678901) (2^45 + 333) 7)) with
     | .ok d => decide (d = ⟨(2^45 + 12345678901) >>> 28, (2^45 + 333) >>> 29, 7⟩) | .error _ => false) = true := by decide
 
+/-! ### end to end on the exact cell: `Reverse ∘ ForwardExact` contains the point -/
+
+/-- **the decoded cell of the exact code contains the point** (GARS, every accepted finite position, every precision):
+`Reverse(ForwardExact(lat, lon, prec))` on the integer level is the cell `[lon1/u, (lon1+1)/u) × [lat1/u, (lat1+1)/u)`
+(degrees, `u = garsUnit prec`) and it contains the prepared position `(prepLon lon, prepLat lat)`.
+(`Forward` itself codes this cell or — in the circumstance described by `gars_scale_contains` — a neighbour: F2.) -/
+theorem gars_cell_contains (lat lon : F64) (h1 : F64.gt (F64.abs lat) MathF.qd = false)
+    (h2 : (lat.isNaN || lon.isNaN) = false) (hf : lon.isFinite = true) (prec : Nat) (hp : prec ≤ 2) :
+    ∃ X Y : ℤ, GARS.scaleExact lat lon = .ok (some (X, Y)) ∧
+      ∃ d : GARS.Dec, GARS.decodeInt (toBytes (GARS.encodeInt X Y prec)) false = .ok d ∧
+        d.prec = prec ∧ d.unit = garsUnit prec ∧
+        (d.lon1 : ℚ) / d.unit ≤ (prepLon lon).val ∧ (prepLon lon).val < ((d.lon1 : ℚ) + 1) / d.unit ∧
+        (d.lat1 : ℚ) / d.unit ≤ (prepLat lat).val ∧ (prepLat lat).val < ((d.lat1 : ℚ) + 1) / d.unit := by
+  obtain ⟨X, Y, X', Y', hE, _, hX, _, hY, hY0, hY1⟩ := gars_scale_contains lat lon h1 h2
+  obtain ⟨⟨⟨cx1, cx2⟩, _⟩, hX0, hX1⟩ := hX hf
+  obtain ⟨⟨cy1, cy2⟩, _⟩ := hY
+  have hm : (F64.ofInt GARS.m).val = 12 := by
+    show (F64.fin false 12 0).val = 12
+    rw [F64.val_fin]; simp
+  rw [hm] at cx1 cx2 cy1 cy2
+  have hmm : GARS.m = 12 := rfl
+  have e1 : ((X + gars_lonorig * GARS.m : ℤ) : ℚ) = (X:ℚ) - 2160 := by
+    show ((X + (-180) * 12 : ℤ) : ℚ) = _
+    push_cast; ring
+  have e2 : ((Y + gars_latorig * GARS.m : ℤ) : ℚ) = (Y:ℚ) - 1080 := by
+    show ((Y + (-90) * 12 : ℤ) : ℚ) = _
+    push_cast; ring
+  rw [e1] at cx1 cx2
+  rw [e2] at cy1 cy2
+  refine ⟨X, Y, hE, _, gars_decode_encode X Y ⟨hX0, hX1⟩ ⟨hY0, hY1⟩ prec hp false, rfl, ?_⟩
+  simp only [Bool.false_eq_true, if_false]
+  rw [hmm]
+  refine ⟨trivial, ?_⟩
+  obtain rfl | rfl | rfl : prec = 0 ∨ prec = 1 ∨ prec = 2 := by omega
+  · -- u = 2, cell = 6 finest cells
+    have hu : garsUnit 0 = 2 := by decide
+    rw [hu]
+    have a1 : X / 6 * 6 ≤ X := by omega
+    have a2 : X + 1 ≤ (X / 6 + 1) * 6 := by omega
+    have b1 : Y / 6 * 6 ≤ Y := by omega
+    have b2 : Y + 1 ≤ (Y / 6 + 1) * 6 := by omega
+    have a1q : ((X / 6 : ℤ) : ℚ) * 6 ≤ X := by exact_mod_cast a1
+    have a2q : (X:ℚ) + 1 ≤ (((X / 6 : ℤ) : ℚ) + 1) * 6 := by exact_mod_cast a2
+    have b1q : ((Y / 6 : ℤ) : ℚ) * 6 ≤ Y := by exact_mod_cast b1
+    have b2q : (Y:ℚ) + 1 ≤ (((Y / 6 : ℤ) : ℚ) + 1) * 6 := by exact_mod_cast b2
+    show ((X / (12 / 2) + gars_lonorig * 2 : ℤ) : ℚ) / ((2:ℤ):ℚ) ≤ _ ∧ _ < (((X / (12 / 2) + gars_lonorig * 2 : ℤ) : ℚ) + 1) / ((2:ℤ):ℚ) ∧
+      ((Y / (12 / 2) + gars_latorig * 2 : ℤ) : ℚ) / ((2:ℤ):ℚ) ≤ _ ∧ _ < (((Y / (12 / 2) + gars_latorig * 2 : ℤ) : ℚ) + 1) / ((2:ℤ):ℚ)
+    have e6 : (12:ℤ) / 2 = 6 := by decide
+    rw [e6]
+    simp only [gars_lonorig, gars_latorig]
+    push_cast
+    refine ⟨?_, ?_, ?_, ?_⟩
+    · rw [div_le_iff₀ (by norm_num)]; linarith
+    · rw [lt_div_iff₀ (by norm_num)]; linarith
+    · rw [div_le_iff₀ (by norm_num)]; linarith
+    · rw [lt_div_iff₀ (by norm_num)]; linarith
+  · have hu : garsUnit 1 = 4 := by decide
+    rw [hu]
+    have a1 : X / 3 * 3 ≤ X := by omega
+    have a2 : X + 1 ≤ (X / 3 + 1) * 3 := by omega
+    have b1 : Y / 3 * 3 ≤ Y := by omega
+    have b2 : Y + 1 ≤ (Y / 3 + 1) * 3 := by omega
+    have a1q : ((X / 3 : ℤ) : ℚ) * 3 ≤ X := by exact_mod_cast a1
+    have a2q : (X:ℚ) + 1 ≤ (((X / 3 : ℤ) : ℚ) + 1) * 3 := by exact_mod_cast a2
+    have b1q : ((Y / 3 : ℤ) : ℚ) * 3 ≤ Y := by exact_mod_cast b1
+    have b2q : (Y:ℚ) + 1 ≤ (((Y / 3 : ℤ) : ℚ) + 1) * 3 := by exact_mod_cast b2
+    show ((X / (12 / 4) + gars_lonorig * 4 : ℤ) : ℚ) / ((4:ℤ):ℚ) ≤ _ ∧ _ < (((X / (12 / 4) + gars_lonorig * 4 : ℤ) : ℚ) + 1) / ((4:ℤ):ℚ) ∧
+      ((Y / (12 / 4) + gars_latorig * 4 : ℤ) : ℚ) / ((4:ℤ):ℚ) ≤ _ ∧ _ < (((Y / (12 / 4) + gars_latorig * 4 : ℤ) : ℚ) + 1) / ((4:ℤ):ℚ)
+    have e6 : (12:ℤ) / 4 = 3 := by decide
+    rw [e6]
+    simp only [gars_lonorig, gars_latorig]
+    push_cast
+    refine ⟨?_, ?_, ?_, ?_⟩
+    · rw [div_le_iff₀ (by norm_num)]; linarith
+    · rw [lt_div_iff₀ (by norm_num)]; linarith
+    · rw [div_le_iff₀ (by norm_num)]; linarith
+    · rw [lt_div_iff₀ (by norm_num)]; linarith
+  · have hu : garsUnit 2 = 12 := by decide
+    rw [hu]
+    show ((X / (12 / 12) + gars_lonorig * 12 : ℤ) : ℚ) / ((12:ℤ):ℚ) ≤ _ ∧ _ < (((X / (12 / 12) + gars_lonorig * 12 : ℤ) : ℚ) + 1) / ((12:ℤ):ℚ) ∧
+      ((Y / (12 / 12) + gars_latorig * 12 : ℤ) : ℚ) / ((12:ℤ):ℚ) ≤ _ ∧ _ < (((Y / (12 / 12) + gars_latorig * 12 : ℤ) : ℚ) + 1) / ((12:ℤ):ℚ)
+    have e6 : (12:ℤ) / 12 = 1 := by decide
+    rw [e6, Int.ediv_one, Int.ediv_one]
+    simp only [gars_lonorig, gars_latorig]
+    push_cast
+    refine ⟨?_, ?_, ?_, ?_⟩
+    · rw [div_le_iff₀ (by norm_num)]; linarith
+    · rw [lt_div_iff₀ (by norm_num)]; linarith
+    · rw [div_le_iff₀ (by norm_num)]; linarith
+    · rw [lt_div_iff₀ (by norm_num)]; linarith
+
+
+section GeohashCell
+open F64
+
+theorem shift_cell (n : ℤ) (h1 : -(2:ℤ) ^ 45 ≤ n) (h2 : n < 2 ^ 45) :
+    ∃ U : ℕ, U = (n + 2 ^ 45).toNat ∧ (U:ℚ) = (n:ℚ) + (2:ℚ) ^ 45 ∧ U < 2 ^ 46 ∧
+      ∀ j : ℕ, (((U >>> j : ℕ) : ℚ) * (2:ℚ) ^ j ≤ (U:ℚ)) ∧ ((U:ℚ) + 1 ≤ (((U >>> j : ℕ) : ℚ) + 1) * (2:ℚ) ^ j) := by
+  refine ⟨(n + 2 ^ 45).toNat, rfl, ?_, by omega, fun j => ?_⟩
+  · have a3 : (((n + 2 ^ 45).toNat : ℕ) : ℤ) = n + 2 ^ 45 := by omega
+    have := congrArg (Int.cast : ℤ → ℚ) a3
+    simp only [Int.cast_add, Int.cast_pow, Int.cast_ofNat, Int.cast_natCast] at this
+    exact this
+  · generalize (n + 2 ^ 45).toNat = U
+    rw [Nat.shiftRight_eq_div_pow]
+    have hp : 0 < 2 ^ j := Nat.pos_of_ne_zero (by simp)
+    have c1 : U / 2 ^ j * 2 ^ j ≤ U := Nat.div_mul_le_self _ _
+    have c2 : U + 1 ≤ (U / 2 ^ j + 1) * 2 ^ j := by
+      have := Nat.lt_div_mul_add (a := U) hp
+      rw [Nat.add_mul, Nat.one_mul]; omega
+    constructor
+    · exact_mod_cast c1
+    · exact_mod_cast c2
+
+/-- **the decoded cell of the exact hash contains the point** (Geohash, every accepted finite position, every length):
+with `z = lon'·2^45/180` (the longitude in units of `loneps`, `lon' = prepLon lon`) the decoded column `d.ulon` of
+`2^(46−k)` units, `k = ⌈5·len/2⌉`, satisfies `d.ulon·2^(46−k) − 2^45 ≤ z < (d.ulon+1)·2^(46−k) − 2^45`; the same in
+latitude with `k = ⌊5·len/2⌋` away from the pole, and the pole is in the last row. -/
+theorem geohash_cell_contains (lat lon : F64) (h1 : F64.gt (F64.abs lat) MathF.qd = false)
+    (h2 : (lat.isNaN || lon.isNaN) = false) (hf : lon.isFinite = true) (len : Nat) (hlen : len ≤ 18) :
+    ∃ ulon ulat : ℕ, Geohash.scaleExact lat lon = some (ulon, ulat) ∧
+      ∃ d : Geohash.Dec, Geohash.decodeInt (toBytes (Geohash.encodeInt ulon ulat len)) = .ok d ∧ d.len = len ∧
+        ((d.ulon : ℚ) * (2:ℚ) ^ (46 - (5 * len + 1) / 2) - (2:ℚ) ^ 45 ≤ (prepLon lon).val * (2:ℚ) ^ (45:ℕ) / 180 ∧
+         (prepLon lon).val * (2:ℚ) ^ (45:ℕ) / 180 < ((d.ulon : ℚ) + 1) * (2:ℚ) ^ (46 - (5 * len + 1) / 2) - (2:ℚ) ^ 45) ∧
+        (lat.val ≠ 90 →
+         (d.ulat : ℚ) * (2:ℚ) ^ (46 - 5 * len / 2) - (2:ℚ) ^ 45 ≤ lat.val * (2:ℚ) ^ (45:ℕ) / 90 ∧
+         lat.val * (2:ℚ) ^ (45:ℕ) / 90 < ((d.ulat : ℚ) + 1) * (2:ℚ) ^ (46 - 5 * len / 2) - (2:ℚ) ^ 45) ∧
+        (lat.val = 90 → d.ulat = (2 ^ 46 - 1) >>> (46 - 5 * len / 2)) := by
+  obtain ⟨nx, ny, cx, cy, hE, _, ⟨x1, x2⟩, ⟨y1, y2⟩, ⟨⟨zx1, zx2⟩, _⟩, hpole, hnp⟩ :=
+    geohash_scale_contains lat lon h1 h2 hf
+  obtain ⟨U, hU, uq, ult, ucell⟩ := shift_cell nx x1 x2
+  obtain ⟨V, hV, vq, vlt, vcell⟩ := shift_cell ny y1 y2
+  rw [← hU, ← hV] at hE
+  refine ⟨U, V, hE, _, geohash_decode_encode46 U V len hlen ult vlt, rfl, ?_, ?_, ?_⟩
+  · obtain ⟨c1, c2⟩ := ucell (46 - (5 * len + 1) / 2)
+    constructor
+    · show ((U >>> (46 - (5 * len + 1) / 2) : ℕ) : ℚ) * _ - _ ≤ _
+      linarith
+    · show _ < (((U >>> (46 - (5 * len + 1) / 2) : ℕ) : ℚ) + 1) * _ - _
+      linarith
+  · intro hne
+    obtain ⟨⟨zy1, zy2⟩, _⟩ := hnp hne
+    obtain ⟨c1, c2⟩ := vcell (46 - 5 * len / 2)
+    constructor
+    · show ((V >>> (46 - 5 * len / 2) : ℕ) : ℚ) * _ - _ ≤ _
+      linarith
+    · show _ < (((V >>> (46 - 5 * len / 2) : ℕ) : ℚ) + 1) * _ - _
+      linarith
+  · intro hv
+    obtain ⟨e1, _⟩ := hpole hv
+    show V >>> (46 - 5 * len / 2) = _
+    have : V = 2 ^ 46 - 1 := by rw [hV, e1]; rfl
+    rw [this]
+
+end GeohashCell
+
 /-! ### non-vacuity: concrete codes -/
 example : String.ofList (GARS.encodeInt (4320 / 2 + 7) (2160 / 2 + 5) 2) = "362HN12" := by decide
 example : (match GARS.decodeInt (toBytes "361HN47".toList) false with
